@@ -135,12 +135,26 @@ def clean(v):
     return v
 
 
+def exc_site(e):
+    """Innermost function an exception was raised in (for signatures)."""
+    import traceback
+    try:
+        tb = traceback.extract_tb(e.__traceback__)
+        return tb[-1].name if tb else '?'
+    except Exception:
+        return '?'
+
+
 class OpHandle:
     def __init__(self, label):
         self.label = label
         self.done = False
         self.result = None
         self.exc = None
+
+    @property
+    def site(self):
+        return exc_site(self.exc) if self.exc is not None else None
 
     def __repr__(self):
         return 'Op(%s done=%s result=%r exc=%r)' % (
